@@ -95,6 +95,25 @@ AspTerm(i) ==
       whole == IF left THEN Bin(o2, inner, c) ELSE Bin(o2, c, inner)
   IN IF ng = 5 THEN Neg(whole) ELSE whole
 
+\* ---------------------------------------------------------------- rules: head kind x two body elements (sign x atom | comparison) x separator
+RRels == <<"eq", "ne", "lt", "le", "gt", "ge">>
+RAtom(j) == IF j = 0 THEN [p |-> "q", args |-> <<V("X")>>] ELSE [p |-> "s", args |-> <<V("X"), Nm(1)>>]
+RAtomText(a) == a.p \o "(" \o (IF Len(a.args) = 1 THEN TText(a.args[1], 1, " ") ELSE TText(a.args[1], 1, " ") \o ", " \o TText(a.args[2], 1, " ")) \o ")"
+\* body element e in 0..11: 0..5 a literal (sign = e \div 2, atom = e % 2), 6..11 the comparison X rel 2
+RElem(e) == IF e < 6 THEN [k |-> "lit", sign |-> e \div 2, a |-> RAtom(e % 2)] ELSE [k |-> "cmp", l |-> V("X"), r |-> RRels[e - 5], rt |-> Nm(2)]
+RElemText(e) == IF e < 6 THEN (IF e \div 2 = 0 THEN "" ELSE IF e \div 2 = 1 THEN "not " ELSE "not not ") \o RAtomText(RAtom(e % 2))
+                ELSE "X " \o RelSym(RRels[e - 5]) \o " 2"
+NAspRules == 4 * 12 * 12 * 2
+AspRule(i) ==
+  LET hk == i % 4
+      e1 == (i \div 4) % 12
+      e2 == (i \div 48) % 12
+      sep == IF (i \div 576) % 2 = 0 THEN ", " ELSE "; "
+      ha == [p |-> "p", args |-> <<V("X")>>]
+      head == IF hk = 0 THEN [k |-> "basic", a |-> ha] ELSE IF hk = 1 THEN [k |-> "choice", a |-> ha] ELSE [k |-> "falsity"]
+      htext == IF hk = 0 THEN "p(X) " ELSE IF hk = 1 THEN "{p(X)} " ELSE IF hk = 2 THEN "" ELSE "#false "
+  IN [text |-> htext \o ":- " \o RElemText(e1) \o sep \o RElemText(e2) \o ".", head |-> head, body |-> <<RElem(e1), RElem(e2)>>]
+
 A0(p) == [k |-> "atom", p |-> p, args |-> <<>>]
 GV(x) == [k |-> "var", v |-> x, s |-> "g"]
 IV(x) == [k |-> "var", v |-> x, s |-> "i"]
